@@ -694,12 +694,12 @@ def run(ctx):
         "reproduction is a VIOLATION)",
         "configuration: --sync-every >= 1 (E9 CfgOk.sync is an assumption on the configuration: nsqd does not validate the option; "
         "with 0 the open finding sync-every-zero-delete-leaves-meta-file applies; fixes/F25 is a proposal only)",
-        "no_zombie_fixed (topic deletion vs SUB / re-creation / second deletion) is a theorem about the tree with "
-        "fixes/F19 + F20 (selected by the ties sub_guard_shape / delete_topic_shape); without them DeleteDisconnectsFull "
-        "is false (delete_disconnects_full_false, witnessDouble_leaks) and both witnesses are replayed as known findings; "
-        "delete_topic_closes_attached holds on every tree",
-        "no_fault is a theorem about removeFromInFlightPQ as patched by fixes/F7_stale_index.patch; on a tree "
-        "without the patch it is false (no_fault_full_false) and the failure is replayed as a known finding",
+        "no_zombie_fixed (topic deletion vs SUB / re-creation / second deletion) is a theorem about this tree: F19 8445d6a + F20 dbf8a73 are "
+        "committed and the ties sub_guard_shape / delete_topic_shape / tree_model_known demand their shapes; about the tree BEFORE them "
+        "DeleteDisconnectsFull is false (delete_disconnects_full_false, witnessDouble_leaks) - both witnesses are fixed findings replayed on "
+        "every run (a reproduction is a VIOLATION); delete_topic_closes_attached holds on every tree",
+        "no_fault is a theorem about removeFromInFlightPQ as patched by F7 (/repo 80a0e5f; tie remove_guard_known accepts only the patched "
+        "guard); about the guard before it no_fault_full_false holds and the failure is a fixed finding replayed on every run",
     ]
     ctx.rule = ("life: generated histories (create/delete/empty/pause/sub/unsub/publish/deliver/FIN/REQ/deferred release; "
                 "durable and ephemeral; mem-queue-size 1/2/3/50 with 200-byte disk files) on a real NSQD, full white-box "
